@@ -379,6 +379,11 @@ def mon_C05_stopped(case, obs):
                         out.append(('C05:timed-out-worker-not-stopped',
                                     'job %d failed with TimeLimitExceeded at event %d %s but its worker %d (in the pool, not exited) was sent no signal: %s'
                                     % (k, n, e, own, o['sigs'])))
+                    elif own in inpool and own not in gone and len(e) > 1 and e[1] and not any(p_ == own and sg == 9 for p_, sg in o['sigs']):
+                        # the scripted worker lingers after the termination signal: SIGKILL must follow
+                        out.append(('C05:lingering-worker-not-killed',
+                                    'job %d failed with TimeLimitExceeded at event %d %s; its worker %d ignores the termination signal and was never sent SIGKILL: %s'
+                                    % (k, n, e, own, o['sigs'])))
         for p_, sg in o['sigs']:
             if sg in (9, 15):
                 gone.add(p_)
@@ -1274,6 +1279,20 @@ def real_scenarios(res, pid, specs):
                 alarm('C07:join-waits-out-consumption-guard-' + multi, 'join() took %ss with %s' % (r['join_s'], json.dumps(sp)))
             if cen.get('workers_alive') or cen.get('supervisor') or cen.get('task_handler') or cen.get('result_handler'):
                 alarm('C07:left-behind-after-join', 'census after join(): %s' % cen)
+        elif k == 'restart_budget':
+            if sp.get('accept_between', True):
+                if r['gave_up'] or any(not e.get('replaced') for e in r['log']):
+                    alarm('C11:budget-not-restored-by-acceptance',
+                          'real pool (max_restarts=%s): abnormal exits with an accepted job between any two of them: %s'
+                          % (sp.get('max_restarts', 3), json.dumps(r['log'])))
+                elif any(e.get('R_after_job') not in (0, None) for e in r['log']):
+                    alarm('C11:budget-not-restored-by-acceptance', 'restart counter after an accepted job: %s' % json.dumps(r['log']))
+            else:
+                admitted = sum(1 for e in r['log'] if e.get('replaced'))
+                if not r['gave_up'] or admitted > sp.get('max_restarts', 3):
+                    alarm('C11:limit-not-enforced-on-real-pool',
+                          'real pool (max_restarts=%s): %d replacements admitted without any acceptance, gave up: %s'
+                          % (sp.get('max_restarts', 3), admitted, r['gave_up']))
         elif k == 'closed_system':
             if r['results'] != r['expected']:
                 alarm('C01:job-unresolved-when-nothing-failed', 'real pool, nothing failed: results %s' % r['results'])
